@@ -17,7 +17,6 @@ import (
 	"github.com/idena-network/idena-go/events"
 	"github.com/libp2p/go-libp2p-core/network"
 	"github.com/libp2p/go-libp2p-core/peer"
-	"github.com/libp2p/go-msgio"
 )
 
 // ---- handler
@@ -56,8 +55,6 @@ func (p *protoPeer) VerifReadStatus(nw types.Network, genesis *types.GenesisInfo
 	return p.readStatus(new(handshakeData), nw, genesis)
 }
 
-// VerifResetReader gives the peer the fresh length-prefixed reader a new connection has.
-func (p *protoPeer) VerifResetReader()               { p.rw = msgio.NewReadWriter(p.stream) }
 func (p *protoPeer) VerifId() peer.ID                { return p.id }
 func (p *protoPeer) VerifKnownHeight() uint64        { return p.knownHeight.Read() }
 func (p *protoPeer) VerifManifest() *snapshot.Manifest { return p.Manifest() }
